@@ -131,4 +131,17 @@ def AdjAll (R : α → α → Prop) : List α → Prop
 
 end unwrap
 
+/-! ### the `Rat` instances the driver runs -/
+namespace R
+
+def mavgSpec (size : Nat) (zero : Rat) (xs : List Rat) := C20.mavgSpec size zero xs
+def mavgClosed (size : Nat) (zero : Rat) (xs : List Rat) := C20.mavgClosed size zero xs
+def accSpec (xs : List Rat) := C20.accSpec xs
+def amdfSpec (lag size : Nat) (zero : Rat) (xs : List Rat) := C20.amdfSpec lag size zero xs
+def clipSpec (low high : Option Rat) (xs : List Rat) := C20.clipSpec low high xs
+def zcrossSpec (h fs : Rat) (xs : List Rat) := C20.zcrossSpec h fs xs
+def unwrapSpec (md step : Rat) (xs : List Rat) := C20.unwrapSpec fl md step xs
+
+end R
+
 end ALV.C20
